@@ -54,7 +54,7 @@ def corpus():
 
 def cases(rng, tier):
     yield from sc.gen_level_a(rng, tier, hints=False)
-    n = 150 if tier == "quick" else 4000
+    n = 150 if tier == "quick" else 2000
     for _ in range(n):
         yield {"kind": "tuple", "args": sc.gen_args(rng, sep_free=rng.random() < 0.7)}
         yield {"kind": "offsets", "offs": [[rng.choice([0, 1, 9, 10, 99, 100, 65535, 2 ** 32, rng.randrange(10 ** 6)]),
